@@ -1180,7 +1180,10 @@ func threadOnly(f *ssa.Function) {
 		panic(normFailure{rootFn(f).String(), "injected failure (self-test of the fallback)"})
 	}
 	canonCompare(f)
-	did := foldDecided(f, decidedCond)
+	did := rotateCallLoops(f)
+	if foldDecided(f, decidedCond) {
+		did = true
+	}
 	for dupResultReturns(f) {
 		did = true
 	}
